@@ -771,6 +771,13 @@ class NPMixin:
                 else:
                     raise Unsupported('missing argument %s in call of %s' % (nm, key))
         L = self.L
+        # row-wise contracts lift through boolean masks: f(X[mask]) = f(X)[mask]   (DESIGN 2.5)
+        lift_mask = None
+        for nm in getattr(c, 'rowwise', ()):
+            v = self.deref(st, args.get(nm))
+            if isinstance(v, MaskedSel):
+                lift_mask = v.mask
+                args[nm] = self.new_obj(st, v.arr)
         A = {nm: self.wrap(v, st) for nm, v in args.items()}
         ghost, gax = c.ghost(L, A) if hasattr(c, 'ghost') else (None, [])
         short = key.split('::')[1]
@@ -812,6 +819,15 @@ class NPMixin:
             gz = _z(g) if not isinstance(g, bool) else z3.BoolVal(g)
             st.pc.append(gz)
             st.facts['%s:%s' % (short, name)] = gz
+        if lift_mask is not None:
+            def lift(v):
+                o = self.deref(st, v)
+                if isinstance(v, Tup):
+                    return Tup([lift(x) for x in v.items])
+                if isinstance(o, Arr):
+                    return MaskedSel(o, lift_mask)
+                return v
+            res = lift(res)
         yield st, res
 
 
